@@ -94,16 +94,10 @@ def run_federation(masks, perm, filt):
     held = [m for m, mask in enumerate(masks) if mask and not (filt and m == 2)]
     for api in ((comp, env) if not (filt and perm == 8) else (env,)):
         got = api.get(NODES[0])
-        # newest version held by any member that passes the attached filter, regardless of member order
+        # newest version, among those that pass the attached filter, held by any member -- regardless of member order and of how the versions
+        # are spread over the members (the composite answers as the union of its members: a version hidden by the filter does not hide an
+        # older one that happens to sit in the same member)
         visible = [m for m in held]
-        if filt:
-            # a member answers get() with ITS newest version and then filters it: versions hidden behind a filtered newer copy in the
-            # same member are not visible through get(); the model follows the documented member semantics
-            visible = []
-            for j in range(3):
-                mine = [m for m, mask in enumerate(masks) if mask & (1 << j)]
-                if mine and max(mine) != 2:
-                    visible.append(max(mine))
         if not visible:
             if got is not None:
                 return False
